@@ -101,6 +101,33 @@ def const_stores(body, pred):
     return vals
 
 
+
+def pair_rules(ig, chk, rule):
+    """links of a node pair with several links are collected regardless of their direction (used by C09 and C01)."""
+    coll = [n for n in walk(ig) if isinstance(n, ast.For) and isinstance(n.iter, ast.Call) and last_attr(n.iter) == "get_links_for_node"
+            and any(last_attr(c) == "append" for c in calls(n))]
+    if not coll:
+        raise ExtractError("_initialize_internal_graph: collection of the links of a multi-link node pair not found")
+    lp = coll[0]
+    flag = None
+    if len(lp.iter.args) > 1:
+        flag = const(lp.iter.args[1])
+    for k in lp.iter.keywords:
+        if k.arg == "flag":
+            flag = const(k.value)
+    flag_all = flag in (None, "ALL", "all", "All")
+    memb = [n for n in walk(lp) if isinstance(n, ast.If) and any(last_attr(c) == "append" for c in calls(ast.Module(body=n.body, type_ignores=[])))]
+    both = False
+    if memb:
+        t = memb[0].test
+        txt = unparse(t)
+        both = isinstance(t, ast.BoolOp) and isinstance(t.op, ast.Or) and "start_node_name" in txt and "end_node_name" in txt
+    chk.expect(flag_all and both, rule, "the links of a node pair joined by several links are collected in both directions (a->b and b->a)", loc(ig, lp),
+               "a parallel link drawn the other way round must share the pair's graph entry: if it is left out, closing its twin marks the pair disconnected although "
+               "the reversed link is open, and connected junctions behind it are reported with zero demand", expected="get_links_for_node(node) [ALL] and start == other or end == other",
+               found="flag=%r test=%s" % (flag, unparse(memb[0].test) if memb else None))
+
+
 def run(repo, chk):
     sim = repo.cls(CORE, "WNTRSimulator")
     meths = {n.name: n for n in sim.body if isinstance(n, ast.FunctionDef)}
@@ -174,6 +201,8 @@ def run(repo, chk):
             found = "zero stores %d, one-if-not-closed stores %d, one-if-closed %d" % (len(zero), len(ones), len(wrong))
         chk.expect(ok, "R-C09-1", "%s: a node pair joined by several links is connected iff any of them is not Closed (entry reset to 0, then set to 1)" % label, loc(fn),
                    "parallel links share one graph entry", found=found)
+    # the list of links joining one node pair is orientation independent: a link drawn b->a beside a->b belongs to the same pair
+    pair_rules(ig, chk, "R-C09-1")
     # (b) update on status change
     is_data = lambda n: isinstance(n, ast.Assign) and unparse(n.targets[0]).startswith("data[")
     upd = [n for n in status_guards(ug, is_data) if "obj" in unparse(n.test)]
@@ -367,6 +396,8 @@ def run(repo, chk):
 
 
 WITNESSES = [
+    dict(name="pair-list-outlet-only", file=CORE, old="                for link_name in self._wn.get_links_for_node(from_node_name):\n                    link = self._wn.get_link(link_name)\n                    if link.start_node_name == to_node_name or link.end_node_name == to_node_name:",
+         new="                for link_name in self._wn.get_links_for_node(from_node_name, 'OUTLET'):\n                    link = self._wn.get_link(link_name)\n                    if link.end_node_name == to_node_name:", rule="R-C09-1"),
     dict(name="closed-links-stay-connected-at-start", file=CORE, old="            if link.status == wntr.network.LinkStatus.Closed:\n                vals.append(0)\n                vals.append(0)",
          new="            if link.status == wntr.network.LinkStatus.Closed:\n                vals.append(1)\n                vals.append(1)", rule="R-C09-1"),
     dict(name="graph-from-initial-status", file=CORE, old="            if link.status == wntr.network.LinkStatus.Closed:\n                vals.append(0)",
